@@ -77,7 +77,33 @@ def judge_twice_merged(s, docs, strict2):
         s.custom_violation('reread-failed', {'exc': type(e).__name__}, wit, status='twice-merged')
 
 
+def under_failing_log_handler(s, n):
+    """The host's log handler fails on every record: whatever an add does then - return or raise - it leaves a
+    running order that serialises, reads back and holds exactly one running-order element."""
+    from ..canon import Abs
+    for i in range(n):
+        if not s.mine(i):
+            continue
+        rng = s.rng('log-handler', i)
+        pool = gen.text_pool('hostile')
+        ro_txt = gen.rand_ro(rng, n_stories=rng.randint(1, 4), pool=pool)
+        kind = ('roReplace', 'roStorySend', 'roMetadataReplace', 'roDelete', 'roStoryReplace', 'roStoryInsert', 'roStoryDelete',
+                'EAStoryMove', 'roItemInsert', 'EAItemDelete')[i % 10]
+        msg_txt = gen.rand_message(rng, Abs(ro_txt), kind, 30, gen.Ids('H%d.' % i), pool=pool,
+                                   shape_weights=(0.7, 0.15, 0.15, 0.0))
+        try:
+            ro, m = s.load(ro_txt), s.load(msg_txt)
+        except Exception:
+            continue
+        with K.failing_log_handler():
+            s.add(ro, m)
+        s.drain_and_judge(None, {'failing-log-handler': i, 'kind': kind})
+        s.hist['adds_under_a_failing_log_handler'] += 1
+
+
 def run(s):
+    under_failing_log_handler(s, 40 if s.tier == 'quick' else 1500)
+    K.reuse_objects(s, ('roReplace', 'roStorySend', 'roStoryAppend', 'roMetadataReplace', 'roDelete'), 20 if s.tier == 'quick' else 600)
     K.suite_workload(s)
     import shutil
     import tempfile
